@@ -698,6 +698,15 @@ func (b *Buffer) write(call goja.FunctionCall) goja.Value {
 		// make sure we only write up to raw bytes
 		length = int64(len(raw))
 	}
+	if length > maxLength {
+		length = maxLength
+	}
+	if codec == utf8Codec && length < int64(len(raw)) {
+		// never write a part of a multi-byte character
+		for length > 0 && raw[length]&0xC0 == 0x80 {
+			length--
+		}
+	}
 	n := copy(bb[offset:], raw[:length])
 	return b.r.ToValue(n)
 }
